@@ -181,6 +181,93 @@ def obligations(r, tier, seed):
             obs.append(Ob("C03/internal/_Chi2GradientHessian.update/order=%s/prior=%s" % ("-".join(map(str, order)), prior), upd, tier="internal",
                           funcs=["graphslam.graph._Chi2GradientHessian.update", "graphslam.graph._Chi2GradientHessian.DefaultArray.__iadd__"]))
 
+    # ---- internal: the fill loops of Graph._calc_chi2_gradient_hessian for an ARBITRARY accumulator view (the fold is cut at the
+    #      contract of update: functools.reduce in graph.py is replaced by a stub that returns an accumulator holding symbolic blocks
+    #      for a chosen key set).  Result: _gradient is the dense scatter of G with fixed blocks zero; _hessian is the symmetric
+    #      scatter of Hu with, for fixed vertices, zero rows/columns and a non-singular diagonal block forcing dx = 0.
+    import itertools as _it
+    fill_types = [("SE2", "R2", "SE3"), ("R3", "SE2", "R2")]
+    for types in fill_types:
+        for fixed in _it.product([False, True], repeat=3):
+            for keyset in ("all", "sparse"):
+                if tier == "quick" and keyset == "sparse" and sum(fixed) not in (0, 1):
+                    continue
+                def fill(k, types=types, fixed=fixed, keyset=keyset):
+                    r_ = k.r
+                    np = k.np
+                    vs = [r_.Vertex(i, k.pose(T, "v%d" % i), fixed=f) for i, (T, f) in enumerate(zip(types, fixed))]
+                    g = r_.Graph([], vs)
+                    dims = [POSE_C[T] for T in types]
+                    offs = [sum(dims[:i]) for i in range(3)]
+                    N = sum(dims)
+                    k.check([v.gradient_index for v in vs] == offs and g._len_gradient == N, "gradient_index = prefix sums of the compact dimensions")
+                    g._fixed_gradient_indices = {offs[i] for i in range(3) if fixed[i]}
+                    acc = r_.graph._Chi2GradientHessian()
+                    acc.chi2 = k.real("chi2")
+                    G, Hu = {}, {}
+                    pairs = [(i, j) for i in range(3) for j in range(i, 3)]
+                    for n_, i in enumerate(range(3)):
+                        if keyset == "all" or n_ != 1:
+                            G[i] = k.vec("G%d_" % i, dims[i])
+                            acc.gradient[offs[i]] = np.array(G[i])
+                    for n_, (i, j) in enumerate(pairs):
+                        if keyset == "all" or n_ % 2 == 0:
+                            Hu[(i, j)] = k.matrix("H%d%d" % (i, j), dims[i], dims[j])
+                            acc.hessian[(offs[i], offs[j])] = np.array(Hu[(i, j)])
+                    with common.patched(r_.graph, reduce=lambda f, it, init: acc):
+                        g._calc_chi2_gradient_hessian()
+                    k.same(g._chi2, acc.chi2, "_chi2 is the accumulated chi2")
+                    grad, H = k.dense(g._gradient), k.dense(g._hessian)
+                    k.check(tuple(grad.shape) == (N,) and tuple(H.shape) == (N, N), "dense shapes")
+                    want_g = [0] * N
+                    for i, v in G.items():
+                        if not fixed[i]:
+                            for c in range(dims[i]):
+                                want_g[offs[i] + c] = v[c]
+                    k.eq([grad[i] for i in range(N)], want_g, "_gradient == scatter of G with fixed blocks zero")
+                    want_H = [[0] * N for _ in range(N)]
+                    for (i, j), M in Hu.items():
+                        if fixed[i] or fixed[j]:
+                            continue
+                        for a in range(dims[i]):
+                            for b in range(dims[j]):
+                                want_H[offs[i] + a][offs[j] + b] = M[a, b]
+                                if i != j:
+                                    want_H[offs[j] + b][offs[i] + a] = M[a, b]
+                    free_idx = [offs[i] + c for i in range(3) if not fixed[i] for c in range(dims[i])]
+                    k.eq([[H[a, b] for b in free_idx] for a in free_idx], [[want_H[a][b] for b in free_idx] for a in free_idx], "_hessian == symmetric scatter of Hu on free rows/columns")
+                    # fixed vertices: rows and columns decoupled from the free unknowns, own block forces dx = 0 (any non-singular block does)
+                    for i in range(3):
+                        if fixed[i]:
+                            idx = [offs[i] + c for c in range(dims[i])]
+                            others = [a for a in range(N) if a not in idx]
+                            k.eq([[H[a, b] for b in others] for a in idx], [[0] * len(others) for _ in idx], "fixed vertex %d: rows decoupled" % i)
+                            k.eq([[H[b, a] for b in others] for a in idx], [[0] * len(others) for _ in idx], "fixed vertex %d: columns decoupled" % i)
+                            dxs = [k.real("dxf%d" % c) for c in range(dims[i])]
+                            A = [[H[a, b] for b in idx] for a in idx]
+                            k.system_equiv(A, [0] * len(idx), [[(1 if a == b else 0) for b in range(len(idx))] for a in range(len(idx))], [0] * len(idx), dxs,
+                                           "fixed vertex %d: its block forces dx = 0" % i, fixed_idx=list(range(len(idx))))
+                obs.append(Ob("C03/internal/Graph._calc_chi2_gradient_hessian/fill/%s/fixed=%s/%s" % ("-".join(types), "".join("1" if f else "0" for f in fixed), keyset),
+                              fill, tier="internal", scope="shape-bounded", bound="3 vertices %s" % "-".join(types),
+                              funcs=["graphslam.graph.Graph._calc_chi2_gradient_hessian", "graphslam.graph.Graph._initialize"]))
+
+    # ---- internal: Graph._initialize assigns prefix sums for longer vertex lists
+    def prefix(k):
+        r_ = k.r
+        import random as _r
+        rnd = _r.Random(5)
+        for n in (1, 2, 4, 7, 12):
+            types = [rnd.choice(["R2", "R3", "SE2", "SE3"]) for _ in range(n)]
+            vs = [r_.Vertex(100 - 7 * i, k.pose(T, "p%d_%d" % (n, i))) for i, T in enumerate(types)]
+            g = r_.Graph([], vs)
+            acc = 0
+            want = []
+            for T in types:
+                want.append(acc)
+                acc += POSE_C[T]
+            k.check([v.gradient_index for v in vs] == want and g._len_gradient == acc, "prefix sums for %d vertices" % n, [v.gradient_index for v in vs])
+    obs.append(Ob("C03/internal/Graph._initialize/gradient-index-prefix-sums", prefix, tier="internal", funcs=["graphslam.graph.Graph._initialize"]))
+
     # ---- internal: entry-wise gradient / Hessian of Graph._calc_chi2_gradient_hessian against the spec
     for shape in [s for s in graphs.family(tier, seed, well_posed_only=True) if s["pattern"] in ("par-ba-ab", "star-rev", "ternary-perm", "unary")][:24]:
         def dense(k, shape=shape):
